@@ -202,7 +202,8 @@ SPEC = {
         "argument count changes); a bare relational operator inside a template argument is never put into this class",
         "random trees of the template-args stream are redrawn when their printed text has a reading cost (deepest nesting of `(` / `[` + half the number of `<`) above 7: the real "
         "parser (and the model) re-read the inside of every `(` and `name <` twice, minutes per tree at a dozen levels; the "
-        "systematic catalogue is not bounded",
+        "systematic catalogue is not bounded; in addition each random tree is emitted only if a trial print + parse on a helper "
+        "thread finished within 1.5 s (count of dropped trees in the template-args-budget STAT line)",
         "an expression-or-type position is compared on what syntax can tell: `Either(expr, type)` equals `Expression(expr)` "
         "(`T<(n[b])>` prints `T<n[b]>`, which reads back as Either; neither form is accepted by the type checker)",
     ],
